@@ -19,7 +19,7 @@ MOD = "mc.props.c04"
 PAIRS = [(a, b) for a in range(1, 7) for b in range(a, 7)]
 SHEAR = [p for p in PAIRS if p[1] >= 4]
 NONSHEAR = [p for p in PAIRS if p[1] <= 3]
-STRAINS = ["const", "thirds", "field", "near", "near13", "two-equal", "midpoint"]
+STRAINS = ["const", "thirds", "field", "near", "near13", "two-equal", "midpoint", "ones", "raw"]   # the last two are positive but not normalised to sum 1
 PERMS = list(itertools.permutations(range(3)))
 SPEC = dict(nq=2, na=2, wset="mid", gset="distinct", bset="distinct", weights="increasing",
             tgrid=[0.0, 300.0], vgrid=[280.0, 320.0], pkind="positive", cv="field", gamma_fill="zeros")
@@ -107,10 +107,11 @@ def run_case(case):
     sp = S.Spectrum(duck.freq_array, duck.mode_gamma[1], duck.mode_gamma[0], w, t, v, duck.na,
                     vb.pressures - duck.static_p_array[None, :], vb.heat_capacity)
     ref = S.Tensor(sp, frame=lambda pr: frames[pr] if pr in frames else numpy.linalg.eigh(S.fictitious_strain(pr))[1])
-    scale = float(numpy.abs(ref.value((1, 1), strain)).max())
+    nstrain = numpy.asarray(strain, float) / numpy.asarray(strain, float).sum(axis=1, keepdims=True)   # fractions e_i/sum(e)
+    scale = float(numpy.abs(ref.value((1, 1), nstrain)).max())
     for p, (a, b) in vals.items():
         try:
-            ra, rb = ref.value(p, strain, False), ref.value(p, strain, True)
+            ra, rb = ref.value(p, nstrain, False), ref.value(p, nstrain, True)
         except ValueError as ex:
             viol.append(V("c04:frame-invalid", f"c{p[0]}{p[1]}: {ex}"))
             continue
@@ -187,7 +188,7 @@ def requests(tier):
 def explore(ctx):
     ctx.rule = ("mode B: a state is an ordered request list over the 21 keys (a step appends a key); enumerated: every ordered "
                 "sequence of length <=2 (<=3 thorough), the 21 complements, the full set in 22 orders (+210 transpositions "
-                "thorough), x 7 axial-strain fields (incl. two nearly-equal ones at 1e-9 and 1e-13 sitting on the task de-duplication edge, two equal fractions, e1=(e2+e3)/2), the full set under all 6 axis relabellings x 7 fields; ONE task-list object resolved and calculated twice or three times with different strain fields / key sets (every result equal to a fresh list's); thorough adds "
+                "thorough), x 9 axial-strain fields (incl. two positive fields that are not normalised to sum 1, two nearly-equal ones at 1e-9 and 1e-13 sitting on the task de-duplication edge, two equal fractions, e1=(e2+e3)/2), the full set under all 6 axis relabellings x 7 fields; ONE task-list object resolved and calculated twice or three times with different strain fields / key sets (every result equal to a fresh list's); thorough adds "
                 "all 2^15 subsets of the shear keys with and without the 6 non-shear keys; every request is resolved and "
                 "calculated on the real task list; oracles: completeness, dependency order, sam_ref value, equality of each "
                 "key's value across ALL explored requests of the same strain field (merging histories only after the "
@@ -197,7 +198,7 @@ def explore(ctx):
     cases = []
     for s in STRAINS:
         for r in requests(ctx.tier):
-            cases.append({"keys": [list(p) for p in r], "strain": s, "isotropy": s == "thirds" and len(r) == 21})
+            cases.append({"keys": [list(p) for p in r], "strain": s, "isotropy": s in ("thirds", "ones") and len(r) == 21})
         for perm in PERMS[1:]:
             cases.append({"keys": [list(p) for p in PAIRS], "strain": s, "perm": list(perm)})
     if not ctx.quick:
